@@ -79,6 +79,7 @@ type Term struct {
 	Bc     *bool
 	R      *big.Rat // constant Real (or exact value of an FP constant)
 	Signed bool     // Go signedness for BV
+	Conj   []Term   // conjuncts when built by And (used to split obligations)
 	NonNil bool     // for Err / pointer-like opaque: known != nil
 }
 
@@ -216,7 +217,7 @@ func And(ts ...Term) Term {
 	if len(keep) == 1 {
 		return keep[0]
 	}
-	return Term{S: SBool, E: app("and", keep...)}
+	return Term{S: SBool, E: app("and", keep...), Conj: keep}
 }
 
 func Or(ts ...Term) Term {
